@@ -40,6 +40,7 @@ enum Special
     DUPLICATE, // two members of the class, each through its own AnalyserExternalVariable
     VOI, // a member of the class of the variable of integration
     FOREIGN, // the same variable of a second, identical model
+    LEFT, // (not a marking) a declared dependency that has left the model by the time it is analysed
 };
 const char *specialName(Special s)
 {
@@ -49,6 +50,7 @@ const char *specialName(Special s)
     case DUPLICATE: return "duplicate";
     case VOI: return "voi";
     case FOREIGN: return "foreign";
+    case LEFT: return "dependency-that-left-the-model";
     }
     return "?";
 }
@@ -61,6 +63,7 @@ struct Marking
     std::vector<std::pair<int, int>> deps; // declared dependencies (class, instance), as accepted by addDependency
     bool underconstrained = false; // the class is one of U
     std::vector<std::pair<int, int>> forced; // dependencies to declare first (aimed markings)
+    std::vector<std::pair<int, int>> onSecondObject; // dependencies declared on the second object of a DUPLICATE marking
 };
 
 const char *ruleName(Issue::ReferenceRule r)
@@ -222,11 +225,27 @@ void run(Src &src, Case &c)
     // the same random markings, and short tapes - rapidcheck's vectors are often shorter than the model generator's
     // appetite, reads past the end give 0 - still reach both choices.
     const bool wantStaleOrder = (instSel[3] / 16) % 100 < 60; // run the code under the stale-order protocol (ODE / DAE models)
-    const bool aimStale = (clsSel[3] / 16) % 100 < 45; // aim one marking at "state based only through an external variable"
+    // One appended shape per case at most (kit/c20_ref.h), chosen by the same kind of derived selector:
+    //   rate chain 36 % (aimStale), initial-value chain 12 %, NLA parameter 10 %, rate read 8 %, none 34 %.
+    const unsigned shapeSel = (clsSel[3] / 16) % 100;
+    const bool aimStale = shapeSel < 36; // aim one marking at "state based only through an external variable"
+    const bool leavingDependency = (depInst[3][0] / 16) % 100 >= 88; // history: a declared dependency leaves the model before the analysis
     const unsigned aimSel = depCls[3][2] / 16, aimDepSel = depInst[3][2] / 16, aimDepKind = (depCls[3][1] / 16) % 3;
     // The generated models rarely contain an equation-computed variable that a rate needs and that reads no state, so an
     // aimed case appends one (constant zE, zA computed from it, state zS with dzS/dt = zA) before anything is analysed.
     const int injected = aimStale ? c20InjectRateChain(gt, (depInst[3][1] / 16) % 4) : -1;
+    int shapeTarget = -1, shapeOther = -1;
+    const char *shape = "";
+    if (shapeSel >= 36 && shapeSel < 48) {
+        shapeTarget = c20InjectInitialValueChain(gt, (depInst[3][1] / 16) % 4);
+        shape = "initial-value-chain";
+    } else if (shapeSel >= 48 && shapeSel < 58) {
+        shapeTarget = c20InjectNlaParameter(gt, (depInst[3][1] / 16) % 4, &shapeOther);
+        shape = "nla-parameter";
+    } else if (shapeSel >= 58 && shapeSel < 66) {
+        shapeTarget = c20InjectRateRead(gt, (depInst[3][1] / 16) % 4, &shapeOther);
+        shape = "rate-read";
+    }
     for (const auto &k : gt.counters) {
         c.count("gen:" + k.first, k.second);
     }
@@ -401,12 +420,19 @@ void run(Src &src, Case &c)
             m.cls = cand[aimSel % cand.size()];
             m.insts.push_back(primary[static_cast<size_t>(m.cls)]);
             int d = (aimDepKind == 2 && !stateBasedVars.empty()) ? stateBasedVars[aimDepSel % stateBasedVars.size()] : states[aimDepSel % states.size()];
-            if (d != m.cls) {
+            if (d != m.cls && aimDepKind != 1) { // a third of the aimed markings declare nothing about states
                 m.forced.emplace_back(d, static_cast<int>((aimDepSel / 7) % gt.classes[static_cast<size_t>(d)].inst.size()));
             }
             addMarking(m);
             c.cls("aimed-marking");
         }
+    }
+    if (shapeTarget >= 0 && !marked[static_cast<size_t>(shapeTarget)] && std::find(U.begin(), U.end(), shapeTarget) == U.end() && aimSel % 8 != 7) {
+        Marking m;
+        m.cls = shapeTarget;
+        m.insts.push_back(primary[static_cast<size_t>(m.cls)]);
+        addMarking(m);
+        c.cls(std::string("shape-marked:") + shape);
     }
     for (size_t i = 0; i < nMark && marks.size() < 4; ++i) {
         Marking m;
@@ -596,27 +622,59 @@ void run(Src &src, Case &c)
     };
     std::vector<Expect> expects;
     std::vector<VariablePtr> foreignVars;
+    VariablePtr leftVariable; // the dependency that leaves the model (history)
+    Built bLeft;
+    std::string leftHow;
     for (auto &m : marks) {
         desc << "external (" << specialName(m.special) << (m.underconstrained ? ", unknown" : "") << "): class " << m.cls << " (" << gtRoleName(gt.classes[static_cast<size_t>(m.cls)].role) << ")";
-        bool first = true;
         std::vector<std::pair<int, int>> accepted;
+        size_t object = 0;
         for (int inst : m.insts) {
             VariablePtr v = varOf(m.special == FOREIGN ? bF : bV, m.cls, inst);
             auto ev = AnalyserExternalVariable::create(v);
             desc << " " << instLabel(gt, m.cls, inst);
-            if (first) {
-                // only the first object of a class carries dependencies: what becomes of the declarations of a second
-                // object for the same class is not specified
-                for (const auto &d : m.deps) {
-                    if (ev->addDependency(varOf(bV, d.first, d.second))) {
-                        accepted.push_back(d);
-                    } else {
-                        report("C20.addDependency|refused", "addDependency(" + instLabel(gt, d.first, d.second) + ") on external variable " + instLabel(gt, m.cls, inst) + " returned false for a variable of the same model that is not equivalent to it");
-                    }
+            // Two objects for one class: the declarations alternate between them (the first one goes to the first object);
+            // the class has to honour all of them.
+            for (size_t di = 0; di < m.deps.size(); ++di) {
+                if (di % m.insts.size() != object) {
+                    continue;
                 }
-                m.deps = accepted;
+                const auto &d = m.deps[di];
+                if (ev->addDependency(varOf(bV, d.first, d.second))) {
+                    accepted.push_back(d);
+                    if (object > 0) {
+                        m.onSecondObject.push_back(d);
+                        c.cls("dependency-declared-on-second-object-of-class");
+                    }
+                } else {
+                    report("C20.addDependency|refused", "addDependency(" + instLabel(gt, d.first, d.second) + ") on external variable " + instLabel(gt, m.cls, inst) + " returned false for a variable of the same model that is not equivalent to it");
+                }
             }
-            first = false;
+            // 3. history: a variable that is a legitimate dependency when declared and has left the model when it is analysed
+            if (leavingDependency && object == 0 && m.special != FOREIGN && !leftVariable) {
+                const auto &in0 = gt.classes[static_cast<size_t>(m.cls)].inst[static_cast<size_t>(inst)];
+                auto comp = bV.comps[static_cast<size_t>(in0.comp)];
+                leftVariable = Variable::create("zLeaving");
+                leftVariable->setUnits("dimensionless");
+                if ((depInst[3][0] / 1600) % 3 != 2) {
+                    leftVariable->setInitialValue("1");
+                }
+                comp->addVariable(leftVariable);
+                bool added = ev->addDependency(leftVariable);
+                comp->removeVariable(leftVariable);
+                if ((depInst[3][0] / 1600) % 3 == 0) {
+                    bLeft = buildApi(gt.spec);
+                    bLeft.comps[0]->addVariable(leftVariable);
+                    leftHow = "moved-to-another-model";
+                } else {
+                    leftHow = leftVariable->initialValue().empty() ? "removed-uninitialised" : "removed-initialised";
+                }
+                desc << " [+ dependency zLeaving, " << leftHow << " before the analysis" << (added ? "" : ", refused") << "]";
+                if (!added) {
+                    leftVariable = nullptr;
+                }
+            }
+            ++object;
             if (!analyser->addExternalVariable(ev)) {
                 report("C20.addExternalVariable|refused", "addExternalVariable returned false for a new external variable object");
             }
@@ -624,6 +682,11 @@ void run(Src &src, Case &c)
                 foreignVars.push_back(v);
                 expects.push_back({Issue::ReferenceRule::ANALYSER_EXTERNAL_VARIABLE_DIFFERENT_MODEL, m.cls, v, false, FOREIGN});
             }
+        }
+        m.deps = accepted;
+        if (leftVariable != nullptr && std::find(foreignVars.begin(), foreignVars.end(), leftVariable) == foreignVars.end()) {
+            foreignVars.push_back(leftVariable);
+            expects.push_back({Issue::ReferenceRule::ANALYSER_EXTERNAL_VARIABLE_DIFFERENT_MODEL, m.cls, leftVariable, false, LEFT});
         }
         if (!m.deps.empty()) {
             desc << "  depends on:";
@@ -649,6 +712,7 @@ void run(Src &src, Case &c)
             (void)prim;
             break;
         case FOREIGN:
+        case LEFT:
             break;
         }
     }
@@ -709,7 +773,9 @@ void run(Src &src, Case &c)
         for (int u : sys.unknowns) {
             e += marked[static_cast<size_t>(u)] ? 1 : 0;
         }
-        partialNla = partialNla || (e != 0 && e != sys.unknowns.size());
+        // fewer unknowns left than equations (generated systems have as many equations as unknowns; the appended
+        // NLA-parameter shape has one equation for two initialised variables)
+        partialNla = partialNla || (e != 0 && e != sys.unknowns.size() && sys.unknowns.size() - e < sys.equations.size());
     }
     // Reference for "state/rate based" with and without the declarations, and the class the stale-order protocol is
     // aimed at: an unmarked equation-computed class that a rate needs and that is state based only through the declared
@@ -728,10 +794,9 @@ void run(Src &src, Case &c)
     }
     const C20Staleness staleness = c20Staleness(gt, marked, declaredClasses);
     bool staleSensitive = false;
+    std::vector<bool> needed(n, false); // what the rates of the unmarked states need, through unmarked classes only
     {
         const C20Staleness without = c20Staleness(gt, marked, {});
-        // what the rates of the unmarked states need, through unmarked classes only
-        std::vector<bool> needed(n, false);
         std::vector<size_t> stack;
         for (size_t k = 0; k < n; ++k) {
             if (gt.classes[k].role == GtRole::STATE && !marked[k]) {
@@ -769,6 +834,32 @@ void run(Src &src, Case &c)
     std::string ctx = "mark:" + join(std::vector<std::string>(markedRoles.begin(), markedRoles.end()), "+") + (underRoles.empty() ? "" : "|unknown:" + join(std::vector<std::string>(underRoles.begin(), underRoles.end()), "+"));
 
     // ---- analysis with externals
+    if (leftVariable != nullptr) {
+        // input class of a finding fixed elsewhere (notes/C09-fix-10.diff): localised, and tried in a child process first
+        // because a dependency that was removed from its component used to bring the analyser or the generator down
+        // (the class carried the signature token |dependency-left-the-model while the finding was open)
+        c.cls("history:dependency-left-the-model:" + leftHow);
+        struct Probe
+        {
+            AnalyserPtr analyser;
+            ModelPtr model;
+        } probe {analyser, bV.model};
+        std::string diag;
+        int rc = runIsolated([](void *arg) {
+            auto *p = static_cast<Probe *>(arg);
+            p->analyser->analyseModel(p->model);
+            auto am = p->analyser->model();
+            if (am != nullptr && am->isValid()) {
+                auto gen = Generator::create();
+                gen->setModel(am);
+                (void)gen->interfaceCode();
+                (void)gen->implementationCode();
+            } }, &probe, 60, &diag);
+        if (rc != 0) {
+            report("C20.crash|analyse-or-generate|" + leftHow, "analysing the model (and generating code) with a declared dependency that has left the model kills the process (status " + std::to_string(rc) + "): " + diag.substr(0, 1500));
+            return;
+        }
+    }
     analyser->analyseModel(bV.model);
     {
         std::string lg = checkLogger(analyser);
@@ -794,11 +885,13 @@ void run(Src &src, Case &c)
         }
         for (int u : U) {
             if (dep[static_cast<size_t>(m)][static_cast<size_t>(u)]) {
-                sigNote = "|external-equation-reads-unknown";
+                if (sigNote.find("|external-equation-reads-unknown") == std::string::npos) {
+                    sigNote += "|external-equation-reads-unknown";
+                }
             }
         }
     }
-    if (!sigNote.empty()) {
+    if (sigNote.find("|external-equation-reads-unknown") != std::string::npos) {
         c.cls("external-equation-reads-unknown");
     }
 
@@ -826,7 +919,7 @@ void run(Src &src, Case &c)
             if (e.matched || e.rule != is->referenceRule()) {
                 continue;
             }
-            if (e.special == FOREIGN ? iv == e.foreign : (icls == e.cls && std::find(foreignVars.begin(), foreignVars.end(), iv) == foreignVars.end())) {
+            if ((e.special == FOREIGN || e.special == LEFT) ? iv == e.foreign : (icls == e.cls && std::find(foreignVars.begin(), foreignVars.end(), iv) == foreignVars.end())) {
                 e.matched = true;
                 found = true;
                 break;
@@ -852,11 +945,50 @@ void run(Src &src, Case &c)
         }
     }
 
+    // Input class of another finding: an NLA system keeps unknowns while one of its initialised variables is marked (the
+    // appended NLA-parameter shape): the pruned unknown used not to become a dependency of the equation.
+    for (const auto &sys : gt.nla) {
+        size_t e = 0;
+        for (int u : sys.unknowns) {
+            e += marked[static_cast<size_t>(u)] ? 1 : 0;
+        }
+        if (e != 0 && e != sys.unknowns.size() && !partialNla) {
+            // (signature token |nla-system-pruned-of-an-external-unknown while the finding was open)
+            c.cls("nla-system-pruned-of-an-external-unknown");
+            break;
+        }
+    }
+
     // (3) validity
     if (partialNla) {
         // n equations for fewer unknowns: the library documents the outcome (over-constrained); not part of the statement
         c.cls("nla-system-partly-marked:" + type1);
         c.count("not-executed:nla-system-partly-marked");
+        return;
+    }
+    const std::string shapeName = shape;
+    if (shapeName == "rate-read" && shapeTarget >= 0 && shapeOther >= 0 && marked[static_cast<size_t>(shapeTarget)] && marked[static_cast<size_t>(shapeOther)]) {
+        // input class of a listed finding (notes/C20-fix-10.diff): the only reader of the rate is itself marked, so its
+        // equation is replaced as well and nothing uses the rate any more
+        sigNote += "|rate-of-marked-state-read-only-by-a-marked-variable";
+        c.cls("rate-of-marked-state-read-only-by-a-marked-variable");
+    }
+    if (shapeName == "nla-parameter" && shapeTarget >= 0 && !marked[static_cast<size_t>(shapeTarget)]) {
+        // zP is not marked: one equation for two unknowns (the driver's solver stub expects as many residuals as unknowns), or zY
+        // alone is marked, which the truth does not describe
+        c.count("not-executed:nla-parameter-shape-without-its-marking");
+        return;
+    }
+    if (shapeName == "rate-read" && shapeTarget >= 0 && shapeOther >= 0 && marked[static_cast<size_t>(shapeTarget)] && !marked[static_cast<size_t>(shapeOther)] && uSubset) {
+        // An equation reads the RATE of a state that is marked external. The callback supplies values only, so either the
+        // analyser refuses the model or the generated code has to get the rate right; it used to print the state instead.
+        c.cls("rate-of-marked-state-is-read");
+        if (!am1->isValid()) {
+            c.cls("rate-of-marked-state-is-read:refused");
+            c.count("not-executed:rate-of-marked-state-is-read(refused)");
+            return;
+        }
+        report("C20.value|rate-of-marked-state-is-read|model-stays-valid", "zR is computed from the rate of " + instLabel(gt, shapeTarget, 0) + ", which is marked external (its ODE is replaced by the callback, which cannot supply a rate); the analyser accepts the model (" + type1 + ") without any issue and the generator writes the state where the rate is meant\nissues:\n" + issuesText);
         return;
     }
     if (!uSubset) {
@@ -1046,7 +1178,14 @@ void run(Src &src, Case &c)
     RunPlan plan = makeRunPlan(ref.model, map1);
     plan.externals = am1->hasExternalVariables();
     plan.poisonExternals = true;
-    plan.staleOrder = (wantStaleOrder || staleSensitive) && plan.ode;
+    bool anyStaleThroughExternalOnly = false;
+    for (size_t k = 0; k < n; ++k) {
+        anyStaleThroughExternalOnly = anyStaleThroughExternalOnly || (staleness.staleThroughExternalOnly[k] && needed[k]);
+    }
+    plan.staleOrder = (wantStaleOrder || staleSensitive || anyStaleThroughExternalOnly) && plan.ode;
+    if (plan.staleOrder && anyStaleThroughExternalOnly) {
+        c.cls("stale-order+rate-needs-consumer-of-external-without-state-dependence");
+    }
     if (plan.staleOrder) {
         plan.staleResolve = c20StaleResolve(ref.model, map1, staleness);
         c.cls("stale-order");
@@ -1088,12 +1227,13 @@ void run(Src &src, Case &c)
     if (map1.states.empty() && map1.hasVoi) c.cls("ode-without-states");
 
     // declared dependencies per external variable index
-    std::map<size_t, std::vector<std::pair<int, int>>> declared;
+    std::map<size_t, std::vector<std::pair<int, int>>> declared, declaredOnSecondObject;
     for (const auto &m : marks) {
         if (m.special == VOI || m.special == FOREIGN) {
             continue;
         }
         declared[static_cast<size_t>(indexOfClass[static_cast<size_t>(m.cls)])] = m.deps;
+        declaredOnSecondObject[static_cast<size_t>(indexOfClass[static_cast<size_t>(m.cls)])] = m.onSecondObject;
     }
 
     long comparisons = 0;
@@ -1185,7 +1325,9 @@ void run(Src &src, Case &c)
                 c.count("declared-dependencies-checked");
                 if (!closeEnough(got, want, kTol)) {
                     std::string drole = dExt ? "external" : gtRoleName(dc.role);
-                    if (!bad("C20.order|" + L + "|" + stageName(k.stage) + "|dependency:" + drole + memberNote(d.first),
+                    const auto &second = declaredOnSecondObject[k.index];
+                    const std::string objectNote = std::find(second.begin(), second.end(), d) != second.end() ? "|declared-on-second-object-of-class" : "";
+                    if (!bad("C20.order|" + L + "|" + stageName(k.stage) + "|dependency:" + drole + memberNote(d.first) + objectNote,
                              where + ": declared dependency " + instLabel(gt, d.first, d.second) + " (" + drole + ") holds " + std::to_string(got) + " but its value is " + std::to_string(want) + " - the callback is invoked before the dependency has been computed")) return false;
                 }
             }
@@ -1198,8 +1340,46 @@ void run(Src &src, Case &c)
     auto valuesOk = [&](const char *lang, const RunResult &r, const std::string &impl) -> bool {
         // A state whose initial value is the name of a constant that is marked external (localised on its own: a listed
         // finding; every later value at point 0 would only repeat it, so the case ends here when it shows).
+        auto chainEnd = [&](int cls) {
+            // the marked class the chain of initial values of cls ends in, or -1
+            for (int hop = 0, k = cls; hop < 8; ++hop) {
+                int by = gt.classes[static_cast<size_t>(k)].initialisedBy;
+                if (by < 0) {
+                    return -1;
+                }
+                if (marked[static_cast<size_t>(by)]) {
+                    return by;
+                }
+                k = by;
+            }
+            return -1;
+        };
+        for (size_t i = 0; i < map1.vars.size(); ++i) {
+            const int cls = map1.vars[i].first;
+            if (marked[static_cast<size_t>(cls)] || gt.classes[static_cast<size_t>(cls)].role != GtRole::CONSTANT || chainEnd(cls) < 0) {
+                continue;
+            }
+            c.cls("constant-initialised-by-external");
+            double want = ref.model.instanceValue(cls, map1.vars[i].second, 0);
+            double got = i < r.initVars.size() ? r.initVars[i] : std::nan("");
+            if (!closeEnough(got, want, kTol)) {
+                report(std::string("C20.value|") + lang + "|after-initialiseVariables|constant-initialised-by-external", "variables[" + std::to_string(i) + "] (" + instLabel(gt, cls, map1.vars[i].second) + ") has an initial value that names (through " + instLabel(gt, gt.classes[static_cast<size_t>(cls)].initialisedBy, 0) + ") the external " + instLabel(gt, chainEnd(cls), 0) + ": after initialiseVariables it is " + std::to_string(got) + ", the callback returned " + std::to_string(want) + "\n--- implementation ---\n" + impl.substr(0, 8000));
+                c.count("excluded:initial-value-chain-ends-in-external(rest not compared)");
+                return false;
+            }
+        }
         for (size_t i = 0; i < map1.states.size(); ++i) {
             const GtClass &sc = gt.classes[static_cast<size_t>(map1.states[i].first)];
+            if (sc.initialisedBy >= 0 && !marked[static_cast<size_t>(sc.initialisedBy)] && chainEnd(map1.states[i].first) >= 0) {
+                c.cls("state-initialised-through-chain-ending-in-external");
+                double want = ref.model.instanceValue(map1.states[i].first, map1.states[i].second, 0);
+                double got = i < r.initStates.size() ? r.initStates[i] : std::nan("");
+                if (!closeEnough(got, want, kTol)) {
+                    report(std::string("C20.value|") + lang + "|init-states|state-initialised-through-chain-ending-in-external", "states[" + std::to_string(i) + "] (" + instLabel(gt, map1.states[i].first, map1.states[i].second) + ") is initialised through " + instLabel(gt, sc.initialisedBy, 0) + " from the external " + instLabel(gt, chainEnd(map1.states[i].first), 0) + ": after initialiseVariables it is " + std::to_string(got) + ", expected " + std::to_string(want) + "\n--- implementation ---\n" + impl.substr(0, 8000));
+                    c.count("excluded:initial-value-chain-ends-in-external(rest not compared)");
+                    return false;
+                }
+            }
             if (sc.initialisedBy < 0 || !marked[static_cast<size_t>(sc.initialisedBy)]) {
                 continue;
             }
@@ -1218,6 +1398,16 @@ void run(Src &src, Case &c)
         if (!d.empty()) {
             if (!report(std::string("C20.value|") + lang + "|" + d.substr(0, d.find('\n')) + (plan.staleOrder ? "|stale-order" : "") + "|" + ctx, d.substr(d.find('\n') + 1) + "\n--- implementation ---\n" + impl.substr(0, 8000))) {
                 return false;
+            }
+        }
+        if (d.empty() && plan.staleOrder && anyStaleThroughExternalOnly) {
+            // listed finding: what is computed from an external variable but from no state is not recomputed by
+            // computeVariables although the callback is invoked again there
+            std::string d2 = compareRunWithTruth(ref.model, map1, c20TolerateStale(ref.model, map1, r, staleness, nullptr, true), kTol, &comparisons);
+            if (!d2.empty()) {
+                if (!report(std::string("C20.value|") + lang + "|variables-1|stale-order|reads-external-but-no-state", d2.substr(d2.find('\n') + 1) + "\n(the variable depends on an external variable but on no state: computeVariables invokes the callback again but does not recompute it)\n--- implementation ---\n" + impl.substr(0, 8000))) {
+                    return false;
+                }
             }
         }
         if (nlaLeft) {
